@@ -117,6 +117,29 @@ def run(ctx):
             except Exception as e:  # noqa
                 a = b = None
                 err = 'reading from a UTF-8 file raises %s' % type(e).__name__
+            if err is None and fst['cases'] % 5 == 0:
+                # the same through a pathlib.Path (from another working directory), and with the result read only after
+                # the file was rewritten: what is returned is about the file as it was when the function was called
+                import pathlib
+                cwd = os.getcwd()
+                try:
+                    os.chdir('/')
+                    a1 = [_debcon.d2l(x) for x in debcon.get_paragraphs_data_from_file(pathlib.Path(p))]
+                    b1 = _d822.groups_t(deb822.get_paragraphs_as_field_groups_from_file(pathlib.Path(p)))
+                    ra = debcon.get_paragraphs_data_from_file(p)
+                    rb = deb822.get_paragraphs_as_field_groups_from_file(p)
+                    with open(p, 'w', encoding='utf-8') as f2:
+                        f2.write('Other: file\n')
+                    a2 = [_debcon.d2l(x) for x in ra]
+                    b2 = _d822.groups_t(rb)
+                    if a1 != a or b1 != b:
+                        err = 'reading the file through a pathlib.Path differs from reading it through its name'
+                    elif a2 != a or b2 != b:
+                        err = 'a result read after the file was rewritten differs from the file as it was when the function was called'
+                except Exception as e:  # noqa
+                    err = 'reading through a pathlib.Path / after the file was rewritten raises %s' % type(e).__name__
+                finally:
+                    os.chdir(cwd)
             try:
                 a0 = [_debcon.d2l(x) for x in debcon.get_paragraphs_data(text)]
                 b0 = _d822.groups_t(deb822.get_paragraphs_as_field_groups(text))
